@@ -366,6 +366,35 @@ def sym_product_basis_one(p):
         raise Violation("orthogonal product states, level %s: value %.6f != 1" % (p.get("level", 1), v))
 
 
+def sym_split_sequence(p):
+    """the value for a split (d_A, d_B) does not depend on an earlier call with the other split of the same total dimension.
+    e0 +- e3, e1 +- e2 in C^6 are orthogonal PRODUCT states for the split 2 x 3 (value 1: an explicit product measurement tells them apart)
+    and the four Bell states of a 2 x 2 corner for the split 3 x 2 (PPT value 1/2); both orders of the two calls are tried."""
+    import numpy as np
+
+    from toqito.state_opt import symmetric_extension_hierarchy
+    from vt.contract import Violation
+
+    dc = _dc()
+    r = np.sqrt(0.5)
+    kets = [np.array(v, dtype=float).reshape(-1, 1) * r for v in ([1, 0, 0, 1, 0, 0], [1, 0, 0, -1, 0, 0], [0, 1, 1, 0, 0, 0], [0, 1, -1, 0, 0, 0])]
+
+    def states():
+        if p.get("rep") == "dm":
+            return [k @ k.T for k in kets]
+        return [k.copy() for k in kets]
+
+    order = p.get("order", ["3x2", "2x3"])
+    vals = {}
+    for which in order:
+        dim = [3, 2] if which == "3x2" else [2, 3]
+        vals[which] = dc.fval(dc.call_soft(symmetric_extension_hierarchy, states(), probs=[0.25] * 4, level=1, dim=dim))
+    if abs(vals["2x3"] - 1) > dc.TOL_CVXPY:
+        raise Violation("orthogonal product states of C^2 (x) C^3: level-1 value %.6f != 1 for dim=[2, 3] (calls in the order %s; dim=[3, 2] gave %.6f)" % (vals["2x3"], order, vals["3x2"]))
+    if vals["3x2"] > 0.5 + dc.TOL_CVXPY:
+        raise Violation("four Bell states in a corner of C^3 (x) C^2: level-1 value %.6f > 1/2 for dim=[3, 2] (calls in the order %s; dim=[2, 3] gave %.6f)" % (vals["3x2"], order, vals["2x3"]))
+
+
 def sym_dim_argument_invariance(p):
     """dim given as [dA, dB], as the integer dA, or omitted (equal dimensions) describes the same system: same value"""
     from vt.contract import Violation
@@ -432,6 +461,7 @@ CLAUSES = {
     "sym.bell_le": sym_bell_le,
     "sym.bell_ge": sym_bell_ge,
     "sym.product_basis_one": sym_product_basis_one,
+    "sym.split_sequence": sym_split_sequence,
     "sym.dim_argument_invariance": sym_dim_argument_invariance,
     "sym.local_unitary_invariance": sym_local_unitary_invariance,
     "sym.frame": sym_frame,
@@ -581,6 +611,10 @@ def cases(tier, seed):
                 for cl in ("sym.returns_normally", "sym.level1_le_ppt", "sym.level1_ge_ppt", "sym.ge_locc"):
                     add(cl, base, ic)
                 add("sym.frame", base, icl("sym/level1", 2, 2, base["field"], "frame-zero-prior-" + rep))
+        # two splits of the same total dimension, one after the other (a model kept between calls must not leak from one split to the other)
+        for rep_ in ("col", "dm"):
+            for order_ in (["3x2", "2x3"], ["2x3", "3x2"]):
+                add("sym.split_sequence", dict(rep=rep_, order=order_), "sym/level1/two-splits-in-sequence/%s" % rep_)
         # arguments passed by position, in the documented order (states, probs, level, dim)
         for bk in bells[:2]:
             for dimform in ("omitted", "list"):
